@@ -400,6 +400,10 @@ def replay_file(root, h, replay_path):
         if rc == -9:
             res[prof] = "reproduced"
             res[prof + "_panic"] = "the native playback did not terminate within 300 s (non-termination)"
+        elif re.search(r"panicked at library/kani/src/concrete_playback\.rs", txt):
+            # the playback harness itself failed (values do not fit the harness, e.g. a stale replay file):
+            # that is not a reproduction
+            res[prof] = "error"
         elif re.search(r"test result: FAILED", txt) or re.search(r"panicked at", txt):
             res[prof] = "reproduced"
         elif re.search(r"test result: ok\. [1-9]", txt):
